@@ -31,6 +31,12 @@ CHECKS = {
  "C09": dict(tech="PBT (proptest) over fabricated oracle accounts against the public price-adapter API + exact-rational oracle",
    text="Pure-function half: every oracle kind (Pyth push, Switchboard pull, fixed, staked, Kamino/Drift/Solend exchange-rate variants) x prices/EMA/confidence/exponents over their integer ranges x publish times around the staleness boundary x max-age / max-confidence settings x authenticity faults (wrong key, owner, discriminator, truncated data, partial verification): a usable price only if authentic, fresh and confident; low <= p <= high with band = min(k*sigma, 5% p) within derived ulps; both outcomes observed on each boundary.",
    ref="DESIGN.md §6 C09", note="Pure functions called natively with fabricated AccountInfos (no runtime). Instruction-level half (doctored oracle inside borrow/withdraw/liquidate/bankruptcy) is exercised by C04's stale-collateral cases and the campaign; exact-rational reference arithmetic."),
+ "C10": dict(tech="exhaustive enumeration of transaction shapes over a 21-symbol alphabet (bounded length) + random longer shapes + amount sweeps, executed atomically; commit-time oracle = language spec + interval reference health",
+   text="Per generated world every transaction shape up to length 4 (quick) / 5 (thorough) over {compute-budget, start/end for two accounts, third-party withdraw/repay/borrow/deposit, record-init, whitelisted refresh, allowed-program swap, short-data and unknown-program instructions, flash start/end, start/end/withdraw/repay via CPI} is executed as one atomic transaction through the real entry point with a real Instructions sysvar; at commit: no receivership marker or receiver survives; third-party control implies the shape is in the language written from the statement, the account was not healthy, health not worse, not ended healthy and premium <= max(fee,5%) unless equity < $5 (definite breaches on enclosures, both price readings); plus thousands of withdraw/repay amount combinations across the premium frontier inside the well-formed bracket.",
+   ref="DESIGN.md §6 C10"),
+ "C11": dict(tech="exhaustive enumeration of transaction shapes over a 23-symbol alphabet (bounded length) + random longer shapes, executed atomically; per-instruction and commit-time oracle with the reference health model",
+   text="Per generated world (account normal / frozen / disabled) every shape up to length 4 (quick) / 5 (thorough) over {flash start naming end index 0..4,9; end for two accounts; big/small borrow; big withdraw; deposit; repay_all; liquidate, bankruptcy, start/end liquidation of the account; transfer; close; start/end/borrow via CPI; compute-budget}: a start that set the flag named a later top-level end of this program for the same account on an unflagged account, no nesting, no liquidation/bankruptcy while flagged; at commit no flag survives and any action that left the account initially unhealthy (reference model) is followed by an end and the account is not unhealthy at commit.",
+   ref="DESIGN.md §6 C11"),
  "C15": dict(tech="exhaustive bounded state-space enumeration over a boundary alphabet + random long histories (proptest), history invariants against an independent reference pause machine",
    text="The real PanicState / PanicStateCache transition functions (glued exactly as the four handlers glue them) driven by (a) exhaustive sequences over {pause, admin-unpause, permissionless-unpause, propagate, wait(boundary delta)} with state hashing, complete to depth 32 (quick) / 48 (thorough), and (b) random long histories; invariants: each pause pushes paused_until by <= 30 min, never > 60 min ahead, <= 3 pauses between daily resets >= 24 h apart, expired pauses stop gating without any call (fee state and stale group cache), permissionless unpause iff expired, admin unpause never fails. Instruction-level wiring of the same handlers is exercised under C14.",
    ref="DESIGN.md §6 C15", note="Pure state-transition functions called natively with a thread-local clock stub; handler glue mirrored by hand (line references in the module)."),
